@@ -1621,7 +1621,7 @@ def check_heartbeat(h, f=None):
                                                 pongs][:6], near)))
                 break
         for e in expected:
-            if e > f.end - 2 * TICK:
+            if e > f.end - 2 * TICK - (EPS - EPS0):
                 continue
             if t_dead is not None and e >= t_dead - EPS:
                 continue
@@ -1877,6 +1877,10 @@ def check_admission(h, f=None):
                     for sid2, st in a.items():
                         st2 = b.get(sid2)
                         if st is None:
+                            continue
+                        if st.get('closing') and not st.get('closed'):
+                            # another thread was in the middle of closing
+                            # this session when the request arrived
                             continue
                         if st2 is None:
                             if not st['closed']:
